@@ -194,7 +194,7 @@ pub fn mock_run<C: Circuit<F>>(circuit: &C, k0: u32) -> Mock {
         match r {
             Err(p) => {
                 // the pow2range / spread tables panic when they do not fit
-                if k < k0 + 8 && (p.contains("not enough") || p.contains("NotEnoughRows") || p.contains("k =")) {
+                if k < k0 + 8 && (p.contains("not enough") || p.contains("NotEnoughRows") || p.contains("usable_rows") || p.contains("k =")) {
                     continue;
                 }
                 return Mock::Failed(format!("panic: {p}"));
